@@ -76,6 +76,11 @@ type scenario struct {
 	GlueKA         int    `json:"glue_ka"`     // this many frames travel in the same write as a keep-alive answer ...
 	KAGlues        int    `json:"ka_glues"`    // ... for the first KAGlues keep-alive requests
 	BigFrames      bool   `json:"big_frames"`  // slices of ~1 KiB, so that a few frames show in the stream's KiB counter
+	// SDPShape: "" = video (+ audio when Audio), "audio-only" = one AAC section,
+	// "audio-first" = audio listed before video, "three" = video, audio and an
+	// application/metadata section the pull has to leave alone.
+	SDPShape string `json:"sdp_shape"`
+	Remap    bool   `json:"remap"` // the camera grants other interleaved pairs than asked (outside the pull client's domain: counted, outcome open)
 
 	frames []fakecam.Frame // generated programme; nil = fakecam.SimpleFrames
 }
@@ -89,6 +94,9 @@ func (sc *scenario) key() string {
 	}
 	if sc.URLShape != "" {
 		fmt.Fprintf(&b, "url=%s ", sc.URLShape)
+	}
+	if sc.SDPShape != "" || sc.Remap {
+		fmt.Fprintf(&b, "sdp=%s remap=%v ", sc.SDPShape, sc.Remap)
 	}
 	if sc.GluePlay > 0 || sc.GlueKA > 0 {
 		fmt.Fprintf(&b, "glue-play=%d glue-keepalive=%dx%d ", sc.GluePlay, sc.GlueKA, sc.KAGlues)
@@ -110,11 +118,33 @@ func (e expectation) String() string { return [...]string{"must-succeed", "must-
 
 // steps a client walks through for this script.
 func (sc *scenario) walk() []fakecam.Step {
-	w := []fakecam.Step{fakecam.Accept, fakecam.Options, fakecam.Describe, fakecam.SetupVideo}
-	if sc.Audio {
+	w := []fakecam.Step{fakecam.Accept, fakecam.Options, fakecam.Describe}
+	if sc.SDPShape != "audio-only" {
+		w = append(w, fakecam.SetupVideo)
+	}
+	if sc.hasAudio() {
 		w = append(w, fakecam.SetupAudio)
 	}
 	return append(w, fakecam.Play)
+}
+
+func (sc *scenario) hasAudio() bool { return sc.Audio || sc.SDPShape != "" }
+
+// sdp builds the session description of the scenario's shape from the
+// repository's real parameter sets (mediah.SDP).
+func (sc *scenario) sdp() string {
+	full := mediah.SDP(esgen.H264, true)
+	vi, ai := strings.Index(full, "m=video"), strings.Index(full, "m=audio")
+	head, video, audio := full[:vi], full[vi:ai], full[ai:]
+	switch sc.SDPShape {
+	case "audio-only":
+		return head + audio
+	case "audio-first":
+		return head + audio + video
+	case "three":
+		return head + video + audio + "m=application 0 RTP/AVP 107\r\na=rtpmap:107 vnd.onvif.metadata/90000\r\na=control:streamid=2\r\n"
+	}
+	return mediah.SDP(esgen.H264, sc.Audio)
 }
 
 // expect also returns the step at which the first deviation from "ok" lies (-1: none)
@@ -147,6 +177,9 @@ func (sc *scenario) expect() (e expectation, faultStep fakecam.Step, okBefore in
 		default:
 			return either, st, okBefore
 		}
+	}
+	if sc.Remap {
+		return either, fakecam.SetupVideo, okBefore
 	}
 	return mustSucceed, faultStep, okBefore
 }
@@ -395,9 +428,13 @@ func framesFor(sc *scenario) []fakecam.Frame {
 	}
 	extra += sc.GlueKA * sc.KAGlues
 	if sc.BigFrames {
-		return fakecam.SimpleFramesSized(sc.Initial+sc.Live+extra, sc.Audio, 3000, 900)
+		return fakecam.SimpleFramesSized(sc.Initial+sc.Live+extra, sc.hasAudio(), 3000, 900)
 	}
-	return fakecam.SimpleFrames(sc.Initial+sc.Live+extra, sc.Audio)
+	n := sc.Initial + sc.Live + extra
+	if sc.SDPShape == "audio-only" { // the camera leaves out the video frames: more material
+		n *= 4
+	}
+	return fakecam.SimpleFrames(n, sc.hasAudio())
 }
 
 // routeFor installs the route of a scenario and returns the request path, the
@@ -487,7 +524,7 @@ func runScenario(sc *scenario, rq requester) *result {
 		sc.Initial = sc.GluePlay
 	}
 	frames := framesFor(sc)
-	script := fakecam.Script{Steps: sc.Steps, User: sc.User, Pass: camPass, PassIsMD5: md5, SDP: mediah.SDP(esgen.H264, sc.Audio),
+	script := fakecam.Script{Steps: sc.Steps, User: sc.User, Pass: camPass, PassIsMD5: md5, SDP: sc.sdp(), RemapChannels: sc.Remap,
 		Frames: frames, Initial: sc.Initial, SessionTimeout: sc.SessionTimeout,
 		GluePlay: sc.GluePlay, GlueKeepAlive: sc.GlueKA, KeepAliveGlues: sc.KAGlues,
 		OnPlay: func() { config.VerifTimeouts(playTimeout, heartbeat) }}
@@ -790,7 +827,7 @@ func playPhase(res *result, sc *scenario, rq requester, cam *fakecam.Camera, s *
 	case fakecam.Continue:
 		// the server side ends it: the stream is closed, the next packet makes the pull loop notice
 		s.Close()
-		cam.Send(-1, 1, 0)
+		cam.Send(-1, 8, 0) // (several: frames of a track that is not set up are not sent)
 	case fakecam.AfterGarbage:
 		cam.Finish(-1, end, sc.EndVariant)
 		if sc.EndVariant%fakecam.GarbageVariants != 3 {
